@@ -18,6 +18,7 @@ import (
 	"rare/pkg/color"
 	"rare/pkg/multiterm"
 	"rare/pkg/multiterm/termscaler"
+	"rare/pkg/multiterm/termunicode"
 )
 
 var vrAnsi = regexp.MustCompile("\x1b\\[[0-9;]*m")
@@ -253,4 +254,75 @@ func TestVerifReplayScaler(t *testing.T) {
 			}
 		}
 	}
+}
+
+// Stacked and grouped bar graphs written in a single pass (what --snapshot does): after the pass
+// every row must be drawn against the same maximum, so bar lengths are proportional across rows.
+// Bound: all sequences of 1..4 rows with two sub-keys and cell values in {0, 3, 8, 10, 12}.
+func TestVerifReplayBarScale(t *testing.T) {
+	oldColor, oldUnicode := color.Enabled, termunicode.UnicodeEnabled
+	color.Enabled, termunicode.UnicodeEnabled = false, false
+	defer func() { color.Enabled, termunicode.UnicodeEnabled = oldColor, oldUnicode }()
+	vals := []int64{0, 3, 8, 10, 12}
+	var rowsPool [][2]int64
+	for _, a := range vals {
+		for _, b := range vals {
+			rowsPool = append(rowsPool, [2]int64{a, b})
+		}
+	}
+	n := 0
+	var rec func(cur [][2]int64, depth int) bool
+	check := func(rows [][2]int64) bool {
+		vt := multiterm.NewVirtualTerm()
+		bg := NewBarGraph(vt)
+		bg.Stacked = true
+		bg.SetKeys("a", "b")
+		var max int64
+		for i, r := range rows {
+			bg.WriteBar(i, fmt.Sprintf("r%d", i), r[0], r[1])
+			if r[0]+r[1] > max {
+				max = r[0] + r[1]
+			}
+		}
+		if max == 0 {
+			return true
+		}
+		for i, r := range rows {
+			n++
+			line := vrStrip(vt.Get(1 + i))
+			fields := strings.Fields(line)
+			got := 0
+			if len(fields) >= 3 {
+				got = len([]rune(fields[1]))
+			} else if r[0]+r[1] != 0 && len(fields) >= 2 && int(r[0]*int64(bg.BarSize)/max)+int(r[1]*int64(bg.BarSize)/max) > 0 {
+				got = -1
+			}
+			want := int(r[0]*int64(bg.BarSize)/max) + int(r[1]*int64(bg.BarSize)/max)
+			if want > 0 && got != want {
+				fmt.Printf("REPRODUCED: stacked rows %v written in one pass: row %d drawn %d cells, want %d (max row total %d): %q\n", rows, i, got, want, max, line)
+				t.Fail()
+				return false
+			}
+		}
+		return true
+	}
+	rec = func(cur [][2]int64, depth int) bool {
+		if len(cur) > 0 && !check(cur) {
+			return false
+		}
+		if depth == 0 {
+			return true
+		}
+		for _, r := range rowsPool[:] {
+			if (r[0]+r[1])%2 == 1 && depth < 3 {
+				continue // thin the tree a little at depth
+			}
+			if !rec(append(append([][2]int64(nil), cur...), r), depth-1) {
+				return false
+			}
+		}
+		return true
+	}
+	rec(nil, 3)
+	t.Logf("bar scale oracle: %d rows checked", n)
 }
